@@ -93,9 +93,9 @@ def gen_case(ctx, idx, stream='case'):
         c['segs'] = segs = [s for s in segs if s < 256] or [1]
     if c['dtype'] == 'bool' and c['layout'] != '4d':
         c['segs'] = segs = [1]
-    c['mfv'] = r.choice([1, 2, 100, 255, 255, 255, 256, 7])
+    c['mfv'] = r.choice([1, 2, 100, 255, 255, 255, 256, 7, 0, 3])
     c['omit'] = r.random() < 0.6
-    c['empty'] = r.choice(['none', 'none', 'some_planes', 'some_seg_planes', 'all', 'one_pixel'])
+    c['empty'] = r.choice(['none', 'none', 'some_planes', 'some_seg_planes', 'all', 'one_pixel', 'tiny'])
     c['density'] = r.choice([0.2, 0.5, 0.8])
     if c['type'] == 'BINARY':
         c['ts'] = r.choice(NATIVE)
@@ -165,6 +165,15 @@ def build_mask(c):
         v = m.reshape(-1)[0] if m.reshape(-1)[0] != 0 else (0.5 if fractional_values else (1 if (c['layout'] == '4d' or isfloat or c['dtype'] == 'bool') else segs[-1]))
         m[...] = 0
         m.reshape(-1)[int(nr.integers(0, m.size))] = v
+    elif e == 'tiny' and fractional_values:
+        # fractions that quantise to zero: everywhere, or in some planes only
+        tiny = m * (0.4375 / max(c['mfv'], 1))
+        if nr.random() < 0.5:
+            m = tiny
+        else:
+            for p in range(P):
+                if nr.random() < 0.6:
+                    m[p] = tiny[p]
     # malformed variants (the constructor must refuse these)
     b = c['bad']
     applied = None
@@ -380,16 +389,14 @@ def run_case(ctx, c, reqs, pending, paths=('memory', 'eager', 'lazy')):
                         'max_before': float(keep.max())}, site='input-mutated')
         mask = keep.copy()
     # ---- refusal
-    mfv_invalid = c['type'] == 'FRACTIONAL' and c['mfv'] > 255
+    mfv_invalid = c['type'] == 'FRACTIONAL' and not 1 <= c['mfv'] <= 255
     if refuse or mfv_invalid:
         ctx.case(sample=None, nontrivial_key=None, **hist)
         if seg is not None:
-            ctx.fail(desc, f'invalid input accepted ({refuse or "max_fractional_value does not fit 8 bits"})', site='refusal')
-        if refuse:
-            reqs.append(('build', margs))
-            pending.append((desc, 'refusal', ('err', 'value')))
-        if seg is None or refuse:
-            return
+            ctx.fail(desc, f'invalid input accepted ({refuse or "max_fractional_value outside 1..255"})', site='refusal')
+        reqs.append(('build', margs))
+        pending.append((desc, 'refusal', ('err', 'value')))
+        return
     if seg is None and c['ts'].startswith('JPEG-LS') and 'Unable to encode' in built[1]:
         # the external JPEG-LS encoder gives up on some small noisy frames: a refusal by the codec, not by highdicom
         ctx.case(**dict(hist, outcome='codec-refused'))
